@@ -15,13 +15,13 @@ V=/tmp/vet-$ID; rm -rf $V; git -C /repo worktree add -q --detach $V HEAD || exit
 trap "git -C /repo worktree remove --force $V" EXIT
 cd $V
 cp $DEMO $DIR/zz_demo_test.go
-go test -vet=off -count=1 ./$DIR/ >/tmp/vet-$ID.without 2>&1; W0=$?
+go test ${DEMOFLAGS:-} -vet=off -count=1 ./$DIR/ >/tmp/vet-$ID.without 2>&1; W0=$?
 rm $DIR/zz_demo_test.go
 git apply $SRC/patch.diff || { echo "patch does not apply"; exit 2; }
 go build ./... || { echo "does not compile"; exit 2; }
 go test -vet=off -count=1 ./... >/tmp/vet-$ID.suite 2>&1; S=$?
 cp $DEMO $DIR/zz_demo_test.go
-go test -vet=off -count=1 ./$DIR/ >/tmp/vet-$ID.with 2>&1; W1=$?
+go test ${DEMOFLAGS:-} -vet=off -count=1 ./$DIR/ >/tmp/vet-$ID.with 2>&1; W1=$?
 echo "$ID: demo without change rc=$W0 (want 0); suite with change rc=$S (want 0); demo with change rc=$W1 (want !=0)"
 if [ $W0 -eq 0 ] && [ $S -eq 0 ] && [ $W1 -ne 0 ]; then
   mkdir -p /verif/seeded/$ID
